@@ -49,7 +49,9 @@ def build_fa(spec):
         tf = NondeterministicTransitionFunction()
         for s, a, t in spec["trans"]:
             tf.add_transition(State(s), lab(a), State(t))
-        omit = set(map(vkey, spec["ctor"].get("omit", [])))
+        # only start / final states may be left out of `states` (the constructor adds those itself); the spec may have been edited
+        # after the choice was made
+        omit = set(map(vkey, spec["ctor"].get("omit", []))) & set(map(vkey, list(spec["starts"]) + list(spec["finals"])))
         return cls(states={State(s) for s in spec["states"] if vkey(s) not in omit}, input_symbols={Symbol(a) for a in spec["symbols"]},
                    transition_function=tf, start_state={State(s) for s in spec["starts"]}, final_states={State(s) for s in spec["finals"]})
     if not hist:
@@ -237,6 +239,27 @@ def rand_fa(rng, kind=None, profile=None, names="plain", max_states=5, max_syms=
         sf = starts + [f for f in finals if f not in starts]
         spec["ctor"] = {"omit": [x for x in sf if rng.random() < 0.6]}
     return spec
+
+
+def rand_elim_fa(rng, names="plain"):
+    """One start state, one final state and 2-3 ordinary states in between with many edges among them: eliminating one ordinary
+    state creates edges parallel to existing ones between the others (state elimination of to_regex has real work to do)."""
+    n = rng.randint(4, 5)
+    states = PLAIN_STATES[:n] if names == "plain" else list(range(n))
+    syms = PLAIN_SYMS[:rng.randint(2, 3)]
+    s0, f, mid = states[0], states[-1], states[1:-1]
+    trans = {(s0, rng.choice(syms), rng.choice(mid))}
+    for p in mid:
+        for q in mid + [f]:
+            if rng.random() < 0.6:
+                trans.add((p, rng.choice(syms + [None]) if rng.random() < 0.9 else None, q))
+    trans.add((rng.choice(mid), rng.choice(syms), f))
+    if rng.random() < 0.3:
+        trans.add((rng.choice(mid), rng.choice(syms), s0))
+    if rng.random() < 0.2:
+        trans.add((f, rng.choice(syms), rng.choice(mid)))
+    return {"kind": "enfa", "states": states, "symbols": syms, "trans": sorted([list(t) for t in trans], key=vkey),
+            "starts": [s0], "finals": [f], "profile": "elim", "names": names}
 
 
 def words_upto(syms, maxlen):
